@@ -83,6 +83,13 @@ CHECKS = {
         "Trusted: renderer + layout map, regex crate. re_str() text itself not compared.",
         "DESIGN.md section 5, C11",
     ),
+    "C12": (
+        "property-based testing / mutation fuzzing of specifications (corpus from the repository + own generated renderings) through every parser entry point; watchdog for termination; libFuzzer target fz_specs shares the oracle (thorough tier)",
+        "exploration",
+        "Mutated near-valid .y/.l/%grmtools texts through ASTWithValidityInfo::new/from_str, YaccGrammar::new/from_str, warnings(), LRNonStreamingLexerDef::from_str/new_with_options, GrmtoolsSectionParser::parse: returns promptly, never panics, Ok or non-empty Err, validity flag consistent, every error/warning span inside the text on char boundaries.",
+        "Termination = answer within 5 s (re-confirmed 50 s in a fresh process) for inputs <= 8 KB. Corpus in corpus/specs (tools/mkcorpus.py).",
+        "DESIGN.md section 5, C12",
+    ),
     "C16": (
         "property-based testing: cross-checking every public state-graph / state-table query per state, token and rule; closed states against a reference LR(1) closure",
         "exploration",
